@@ -8,7 +8,7 @@ PROPS = ['Rangers.Props.C02', 'Rangers.Props.C02Facts', 'Rangers.Props.C02Live',
 DRIVERS = ['C02']
 META = dict(
     level='proof',
-    technique='Lean 4 theorems (52 obligations, core Lean, no Mathlib) about executable transcriptions of '
+    technique='Lean 4 theorems (56 obligations, core Lean, no Mathlib) about executable transcriptions of '
               'src/storage/trie: (a) the fully loaded trie: insert/delete keep the minimal form, minimal form is unique '
               'for a content, root history-independent for every hash function, node encoding = Yellow Paper c(J,i), '
               'reads = last write, iteration complete and ordered, panic branches unreachable; (b) the live trie '
@@ -55,6 +55,21 @@ def correspond(ctx):
     c = vlib.correspond(ctx, 'c02', 'C02', args, timeout=to,
                         nontrivial=lambda o, x: x != 'bad-op')
     c['name'] = 'trie-ops'
+    # a well-formed op that ends in an error on the implementation is a broken tie, even if both
+    # sides happened to print the same thing (only `badopen` is expected to be rejected)
+    paths = c.get('paths') or {}
+    if paths.get('ops') and os.path.exists(paths['ops']):
+        bad = []
+        with open(paths['ops'], errors='replace') as fo, open(paths['obs'], errors='replace') as fb:
+            for o, x in zip(fo, fb):
+                if (x.startswith('err-') or x.startswith('model-')) and not o.startswith('badopen'):
+                    bad.append(dict(op=o.strip()[:200], impl=x.strip()[:200]))
+                    if len(bad) >= 5:
+                        break
+        if bad:
+            c['ok'] = False
+            c['errors'].append('well-formed op answered with an error: %r' % bad[:2])
+            c['error_answers'] = bad
     # a panic of the real trie on a well-formed history is a property-level failure by itself
     c['violations'] = [dict(key='panic', desc='implementation panicked: %s on %s' % (p['impl'], p['op']), replay=p)
                        for p in c.get('panics', [])[:1]]
@@ -87,13 +102,31 @@ def search(ctx, hints):
     rc, so, se = vlib.run(args, cwd=cwd, env=dict(VERIF_SEED=str(ctx.seed), GOMEMLIMIT='8GiB'),
                           timeout=1200 if ctx.thorough() else 240)
     res = None
+    found = []
     for line in so.split('\n'):
         if line.startswith('SEARCH '):
             res = json.loads(line[7:])
+        elif line.startswith('FOUND '):
+            found.append(json.loads(line[6:]))     # printed the moment it was found
     if res is None:
-        return dict(evaluations=0, distinct_nontrivial=0, violations=[], samples=[],
+        # the searcher died or ran out of time: keep what it had already reported
+        return dict(evaluations=0, distinct_nontrivial=0, violations=found, samples=[],
                     error='searcher exited %d: %s' % (rc, (se or so)[-800:]))
-    res['violations'] = res.get('violations') or []
+    res['violations'] = res.get('violations') or found
+    if ctx.thorough():
+        # concurrency again under the race detector (evidence, not proof)
+        rbin, log = vlib.go_build(ctx, vlib.HARNESS, './cmd/c02', 'c02race', race=True)
+        if rbin:
+            rc2, so2, se2 = vlib.run([rbin, 'mode=search', 'n=0', 'conc=10', 'race=1', 'tier=quick'], cwd=ctx.scratch('race'),
+                                     env=dict(VERIF_SEED=str(ctx.seed)), timeout=900)
+            race = 'DATA RACE' in (se2 + so2)
+            res['race_run'] = dict(rc=rc2, data_race_reported=race)
+            if race or rc2 != 0:
+                res['violations'].append(dict(key='concurrent-data-race', desc='race detector / crash in concurrent tries on one NodeDatabase: '
+                                              + (se2 or so2)[-600:], replay=dict(how='harness/bin/c02race mode=search n=0 conc=10')))
+            for line in so2.split('\n'):
+                if line.startswith('FOUND '):
+                    res['violations'].append(json.loads(line[6:]))
     return res
 
 
